@@ -268,6 +268,21 @@ func (st *State) intBinopInt(op token.Token, a, b *Term, bits int, signed bool, 
 			return w(IntT(r))
 		}
 		bvop := map[token.Token]string{token.AND: "bvand", token.OR: "bvor", token.XOR: "bvxor"}[op]
+		if a.FromBV != nil && b.FromBV != nil && a.FromBV.W == bits && b.FromBV.W == bits {
+			// both operands are bit-vectors seen as integers: operate on the bit-vectors
+			y := b.FromBV
+			bo := bvop
+			if op == token.AND_NOT {
+				y = mk(SBV, bits, "(bvnot %s)", y.S)
+				bo = "bvand"
+			}
+			rb := foldBV(bo, a.FromBV, y)
+			u := mk(SInt, 0, "(bv2int %s)", rb.S)
+			u.FromBV = rb
+			u.Lo = big.NewInt(0)
+			u.Hi = new(big.Int).Sub(new(big.Int).Lsh(big.NewInt(1), uint(bits)), big.NewInt(1))
+			return w(u)
+		}
 		bs := fmt.Sprintf("((_ int2bv %d) %s)", bits, b.S)
 		if op == token.AND_NOT {
 			bvop = "bvand"
